@@ -11,7 +11,7 @@ import struct
 
 import mutagen
 from mutagen._util import insert_bytes, delete_bytes, enum, \
-    loadfile, convert_error, read_full
+    loadfile, convert_error, read_full, get_size
 from mutagen._tags import PaddingInfo
 
 from ._util import error, ID3NoHeaderError, ID3UnsupportedVersionError, \
@@ -336,6 +336,8 @@ def delete(filething, delete_v1=True, delete_v2=True):
         else:
             insize = BitPaddedInt(insize)
             if id3 == b'ID3' and insize >= 0:
+                if insize + 10 > get_size(f):
+                    raise error("ID3v2 tag size exceeds the file size")
                 delete_bytes(f, insize + 10, 0)
 
 
